@@ -391,7 +391,7 @@ func callsOf(expr string) []string {
 	for _, mm := range callRe.FindAllStringSubmatch(expr, -1) {
 		n := mm[1]
 		switch n {
-		case "phi", "conv", "deref", "cell", "lookup", "slice", "next", "range":
+		case "phi", "conv", "deref", "cell", "lookup", "slice", "next", "range", "new", "make", "append", "len", "cap", "zero":
 			continue
 		}
 		m[n] = true
